@@ -60,10 +60,19 @@ struct Args {
 }
 
 fn env_path(name: &str, default: &str) -> PathBuf {
-    std::env::var_os(name)
+    let p = std::env::var_os(name)
         .map(PathBuf::from)
-        .unwrap_or_else(|| PathBuf::from(default))
+        .unwrap_or_else(|| PathBuf::from(default));
+    // absolute, whatever happens to the working directory later (relative-path runs move it)
+    if p.is_relative() {
+        if let Some(start) = START_DIR.get() {
+            return start.join(p);
+        }
+    }
+    p
 }
+
+static START_DIR: std::sync::OnceLock<PathBuf> = std::sync::OnceLock::new();
 
 fn parse_args() -> Result<Args, String> {
     let mut a = Args {
@@ -304,6 +313,9 @@ fn write_replay(verif: &Path, rf: &ReplayFile) -> PathBuf {
 fn extract(sc: &Scenario, pool: &[Image]) -> (Scenario, Vec<Image>) {
     use scenario::Op;
     let mut used: Vec<usize> = vec![0, sc.initial];
+    if sc.relative {
+        used.push(sc.decoy);
+    }
     for op in &sc.ops {
         match op {
             Op::Replace { image } => used.push(*image),
@@ -334,6 +346,9 @@ fn extract(sc: &Scenario, pool: &[Image]) -> (Scenario, Vec<Image>) {
     let map = |i: usize| used.iter().position(|&u| u == i).unwrap();
     let mut s = sc.clone();
     s.initial = map(s.initial);
+    if s.relative {
+        s.decoy = map(s.decoy);
+    }
     for op in s.ops.iter_mut() {
         match op {
             Op::Replace { image } => *image = map(*image),
@@ -372,6 +387,8 @@ fn sweep_scenario(idx: usize, full: bool) -> Scenario {
         n_clients: 1,
         initial: idx,
         stat_lies: 0,
+                        relative: false,
+                        decoy: 0,
         clock: Some(1_790_380_800 + idx as u64 * 86_400 * 97),
         ops: vec![
             Op::Load {
@@ -922,6 +939,8 @@ fn cmd_run(args: &Args) -> i32 {
                         n_clients: 1,
                         initial: 0,
                         stat_lies: 0,
+                        relative: false,
+                        decoy: 0,
                         clock: None,
                         ops: vec![],
                     }),
@@ -1054,7 +1073,7 @@ fn cmd_run(args: &Args) -> i32 {
             "event_log_hash_combined": format!("{combined:016x}"),
             "determinism_pairs_checked": args.det_pairs,
             "miri_concurrent_clients": {
-                "what": "3 client threads x 24 operations (loads through the seam from memory, lookups, UTC<->TAI conversions, SOFA-inclusive touches) interpreted by Miri, whose seeded scheduler preempts at basic-block granularity; one miri seed = one interleaving; thorough tier only (and as a fallback when violations seen in a batch do not replay from their scenario)",
+                "what": "3 client threads x 24 operations (loads through the seam from memory, lookups, UTC<->TAI conversions, SOFA-inclusive touches) interpreted by Miri, whose seeded scheduler preempts at basic-block granularity; one miri seed = one interleaving; the clients set up, meet at a barrier and start together, each with a first use of one entry point (first-use initialisation races); 96 seeds in the thorough tier, 16 in the quick tier (48 more as a fallback when violations seen in a batch do not replay from their scenario)",
                 "miri_seeds_executed": args.miri_seeds,
                 "miri_seeds_with_violation": args.miri_violations,
             },
@@ -1133,6 +1152,7 @@ fn cmd_run(args: &Args) -> i32 {
 }
 
 fn main() {
+    let _ = START_DIR.set(std::env::current_dir().unwrap_or_else(|_| PathBuf::from("/")));
     let args = match parse_args() {
         Ok(a) => a,
         Err(e) => harness_error(&e),
